@@ -479,6 +479,21 @@ func (txmp *TxMempool) addNewTransaction(wtx *WrappedTx, checkTxRes *abci.Respon
 		return
 	}
 
+	// Check that the transaction is not already in the mempool: the cache may
+	// have forgotten a transaction that is still in the pool (cache smaller than
+	// the pool, or disabled). If so, only record the peer.
+	if elt, ok := txmp.txByKey[wtx.tx.Key()]; ok {
+		w := elt.Value.(*WrappedTx)
+		for id := range wtx.peers {
+			w.SetPeer(id)
+		}
+		txmp.logger.Debug(
+			"transaction already there, not adding it again",
+			"tx", fmt.Sprintf("%X", wtx.tx.Hash()),
+		)
+		return
+	}
+
 	priority := checkTxRes.Priority
 	sender := checkTxRes.Sender
 
